@@ -105,6 +105,37 @@ pub fn observe(rep: &mut Report, input: &[u8], q: &Q, placed_invalid: bool, ctxt
         }
         Ok(out)
     };
+    // the same parser asked again after each error (not the fused iterators): whatever
+    // position an error left the source at, the next datum must still be well-formed
+    let resume = |mut next: Box<dyn FnMut() -> Result<Option<Value>, lexpr::parse::Error> + '_>| -> Result<Vec<Value>, String> {
+        let mut out = Vec::new();
+        for _ in 0..16 {
+            match next() {
+                Ok(Some(v)) => out.push(v),
+                Ok(None) => break,
+                Err(_) => {}
+            }
+        }
+        Ok(out)
+    };
+    results.push(("slice:resume", panics::guarded(|| {
+        let mut p = Parser::from_slice_custom(input, o);
+        resume(Box::new(move || p.next_value()))
+    })));
+    results.push(("reader:resume", panics::guarded(|| {
+        let mut p = Parser::from_reader_custom(input, o);
+        resume(Box::new(move || p.next_datum().map(|d| d.map(|d| d.value().clone()))))
+    })));
+    if let Some(s) = as_str {
+        results.push(("str:resume", panics::guarded(|| {
+            let mut p = Parser::from_str_custom(s, o);
+            resume(Box::new(move || p.next_value()))
+        })));
+        results.push(("str:resume-datum", panics::guarded(|| {
+            let mut p = Parser::from_str_custom(s, o);
+            resume(Box::new(move || p.next_datum().map(|d| d.map(|d| d.value().clone()))))
+        })));
+    }
     results.push(("slice:value", panics::guarded(|| lexpr::from_slice_custom(input, o).map(|v| vec![v]).map_err(|e| e.to_string()))));
     results.push(("slice:datum", panics::guarded(|| lexpr::datum::from_slice_custom(input, o).map(|d| vec![d.value().clone()]).map_err(|e| e.to_string()))));
     results.push(("slice:iter", panics::guarded(|| {
@@ -443,6 +474,32 @@ pub fn sets(ctx: &Ctx) -> Vec<CaseSet> {
         }),
     ));
 
+    // a multi-byte character directly after a prefix that makes the parser fail
+    // part-way through a token, then more text: the resumed parser starts wherever
+    // the error left the source
+    out.push(CaseSet::new(
+        "multibyte-after-error-prefix",
+        ctx.size(20_000, 1_500_000),
+        Box::new(move |rep, rng, _| {
+            const PREFIXES: &[&str] = &["#x", "#b", "#o", "#d", "#", "#e", "1e", "1e+", "1.", "-", "+.", "\"\\", "\"\\x", "\"\\x4", "#\\x", "#\\x4", "#\\", "#\\sp", "?\\^", "?\\C-", "?\\", "?", "\"\\u", "\"\\N{", "#u8(", "#u8(1", "(a .", "#:", ":", "#%", "1", "12", "'", ",@", "#t", "#f", "#n", "#ni", "|", "a|"];
+            let mb = ["é", "λ", "中", "𝒳", "ｱ", "ß", "\u{a0}", "\u{2028}", "\u{feff}", "Ⅷ"];
+            let mut t = String::new();
+            for _ in 0..rng.range(1, 3) {
+                t.push_str(*rng.pick::<&str>(PREFIXES));
+                for _ in 0..rng.range(1, 3) {
+                    t.push_str(*rng.pick::<&str>(&mb));
+                }
+                match rng.below(4) {
+                    0 => t.push_str("t "),
+                    1 => t.push_str("\" "),
+                    2 => t.push(' '),
+                    _ => {}
+                }
+            }
+            let q = q_for(rng.below(3) as u8, rng);
+            observe(rep, t.as_bytes(), &q, false, Ctxt::Free, "multibyte-after-error-prefix");
+        }),
+    ));
     out.push(CaseSet::new("escape-multibyte-alignment", ctx.size(60_000, 4_500_000), Box::new(move |rep, rng, _| alignment_case(rep, rng))));
 
     // random corrupted soup (no demand, observation only)
